@@ -8,12 +8,16 @@ for d in sorted(glob.glob('/verif/seeded/*/')):
     hist = m.get('check_history', [])
     first = hist[0]['exit'] if hist else m.get('check_quick_exit')
     keys = m.get('violation_keys') or []
+    voh = m.get('valid_on_head') or {}
+    caught = 'yes' if m.get('caught_by_quick') else 'NO'
+    if voh.get('valid') is False:
+        caught = 'n/a: harmless on HEAD (' + voh.get('status', '') + '; ' + m.get('superseded_by', '') + ')'
     rows.append((name, m['property'], m.get('summary', '').replace('|', '/'), m.get('needs', '').replace('|', '/'),
-                 'yes' if m.get('caught_by_quick') else 'NO', 'yes' if first == 1 else 'no (check strengthened afterwards)', '; '.join(k.replace('|', '¦') for k in keys[:3])))
+                 caught, 'yes' if first == 1 else 'no (check strengthened afterwards)', '; '.join(k.replace('|', '¦') for k in keys[:3])))
 with open('/verif/seeded/INDEX.md', 'w') as f:
     f.write("# Seeded changes (written by independent sub-agents that saw only the property text)\n\n")
     f.write("Each directory holds patch.diff (applies to /repo with `git apply`), the demonstration test and meta.json (what was confirmed, what the quick check reported).\n\n")
     f.write("| id | property | change | needs | caught by quick tier now | caught at first attempt | violation keys (first 3) |\n|---|---|---|---|---|---|---|\n")
     for r in rows:
         f.write("| " + " | ".join(r) + " |\n")
-print(len(rows), "seeded changes;", sum(1 for r in rows if r[4] == 'yes'), "caught")
+print(len(rows), "seeded changes;", sum(1 for r in rows if r[4] == 'yes'), "caught;", sum(1 for r in rows if r[4] == 'NO'), "missed;", sum(1 for r in rows if r[4].startswith('n/a')), "harmless on HEAD")
